@@ -122,3 +122,6 @@ Definition ws_str (o : opts) (w : str) : bool :=
   forallb (fun ch => mem_ascii ch ws_chars && mem_ascii ch (trimRunes o)) w.
 Definition ws_ok (o : opts) (ws : nat -> str) : Prop := forall i, ws_str o (ws i) = true.
 Definition no_ws : nat -> str := fun _ => [].
+
+(* checkTagToSkip when SetCheckTagToSkipFunc was not called *)
+Definition nskip (t : str) : bool := false.
